@@ -35,7 +35,9 @@ void run_expr(const char *input) {
         int32_t *vf = (int32_t *) malloc(sizeof(int32_t) * (cap ? cap : 1) + 8), *vt = (int32_t *) malloc(sizeof(int32_t) * (cap ? cap : 1) + 8);
         for (i = 0; i < (cap ? cap : 1) + 2; i++) { vf[i] = -777; vt[i] = -777; }
         h_env_clear_capture(&e);
-        r = SCPI_ExprChannelListEntry(&e.ctx, &param, (int) index, &rng, vf, vt, cap, &dims);
+        /* capacity 0 may come with no arrays at all (a counting pass): the library tolerates NULL value arrays when length is 0 */
+        if (cap == 0 && ((index + bl) & 1)) r = SCPI_ExprChannelListEntry(&e.ctx, &param, (int) index, &rng, NULL, NULL, 0, &dims);
+        else r = SCPI_ExprChannelListEntry(&e.ctx, &param, (int) index, &rng, vf, vt, cap, &dims);
         printf(" c%d,", (int) r);
         if (!e.n_errcb) printf("-"); for (k = 0; k < e.n_errcb; k++) printf("%s%d", k ? "/" : "", e.errcb[k]);
         if (r == SCPI_EXPR_OK) {
